@@ -226,6 +226,11 @@ class Path:
         return 'Path(end=%s seg=%s ev=%d pc=%d)' % (self.end, self.seg, len(self.events), len(self.pc))
 
 
+def smt_valid(hyps, goal):
+    from . import smt
+    return smt.check_valid(hyps, goal, timeout_ms=5000).status == 'unsat'
+
+
 class LoopSpec:
     """contract-side configuration of a cut loop: invariant (callable(interp, env) -> z3 Bool or list)"""
 
@@ -720,14 +725,18 @@ class Interp:
             # inside a symbolic comprehension body no forking is possible: a pure `if` whose two arms both return a
             # value is merged into an if-then-else term
             outs = []
-            for arm in (node.body, node.orelse):
+            for arm, armc in ((node.body, c), (node.orelse, z3.Not(c))):
                 n_ev = len(self.path.events)
+                ng = len(self.guards[-1]) if self.guards else 0
                 try:
                     self.exec_block(arm, Env(env))
                 except _Return as r:
                     outs.append(r.v)
                 else:
                     raise Unsupported('if-statement inside a symbolic comprehension body that does not return on both arms')
+                if self.guards:
+                    # an implicit exception inside an arm can only happen when that arm is taken
+                    self.guards[-1][ng:] = [(z3.Implies(armc, g), cl) for g, cl in self.guards[-1][ng:]]
                 if len(self.path.events) != n_ev:
                     raise Unsupported('side effect inside a merged if-statement')
             raise _Return(self.lib.ite(self, c, outs[0], outs[1]))
@@ -967,6 +976,8 @@ class Interp:
             return
         if self.find_loop_spec(label) is None and self.try_map_loop(node, env, label, payload):
             return
+        if self.find_loop_spec(label) is None and self.try_items_map_loop(node, env, label, payload):
+            return
         self.cut_for(node, env, label, payload)
 
     def try_map_loop(self, node, env, label, src):
@@ -1041,6 +1052,89 @@ class Interp:
         row.val = z3.Lambda([k], z3.If(inS, z3.substitute(vt, (var, k)), val0[k]))
         self.emit(Ev('RowMapLoop', obj=row, seq=src.seq, label=label))
         env.vars.pop(node.target.id, None) if False else None
+        return True
+
+    def try_items_map_loop(self, node, env, label, src):
+        """summarise   for k, v in r.items(): [if c(k, v):] r[k] = f(k, v)
+        (r the very row being iterated, c and f independent of r's other cells and free of effects) as the pointwise update
+            r' = { k: f(k, v) if c(k, v) else v   for k, v in r.items() }
+        Sound because dict iteration visits every key exactly once when no key is inserted or deleted, and writing the
+        current key is not a structural change.  Returns False when the loop does not have that shape."""
+        lib = self.lib
+        if not isinstance(src, lib.RowItemsSource) or src.what != 'items' or node.orelse:
+            return False
+        tg = node.target
+        if not (isinstance(tg, ast.Tuple) and len(tg.elts) == 2 and all(isinstance(e, ast.Name) for e in tg.elts)):
+            return False
+        kname, vname = tg.elts[0].id, tg.elts[1].id
+        if len(node.body) != 1:
+            return False
+        st = node.body[0]
+        test = None
+        if isinstance(st, ast.If) and not st.orelse and len(st.body) == 1:
+            test, st = st.test, st.body[0]
+        if not (isinstance(st, ast.Assign) and len(st.targets) == 1 and isinstance(st.targets[0], ast.Subscript)
+                and isinstance(st.targets[0].value, ast.Name) and isinstance(st.targets[0].slice, ast.Name)
+                and st.targets[0].slice.id == kname):
+            return False
+        row = src.row
+        try:
+            if self.eval(st.targets[0].value, env) is not row:
+                return False
+        except Unsupported:
+            return False
+        for sub in ([test] if test is not None else []) + [st.value]:
+            for n in ast.walk(sub):
+                if isinstance(n, (ast.Yield, ast.YieldFrom, ast.Await, ast.NamedExpr, ast.Lambda)):
+                    return False
+        dom0, val0 = row.dom, row.val
+        ev0, pc0, cnt0 = len(self.path.events), len(self.path.pc), dict(self.counter)
+        kvar = self.fresh('mk', StrS)
+        vvar = self.fresh('mv', Cell)
+        env2 = Env(env)
+        env2.vars[kname] = SV(kvar)
+        env2.vars[vname] = self.uncell(vvar)
+        self.term_mode += 1
+        self.guards.append([])
+        ok = True
+        ct = vt = None
+        try:
+            try:
+                c = True if test is None else self.truth(self.eval(test, env2))
+                ct = z3.BoolVal(c) if isinstance(c, bool) else c
+                ng = len(self.guards[-1])
+                v = self.eval(st.value, env2)
+                vt = self.cell_of(v)
+                # the value is computed only when the test holds
+                self.guards[-1][ng:] = [(z3.Implies(ct, g), cl) for g, cl in self.guards[-1][ng:]]
+            except Unsupported:
+                ok = False
+        finally:
+            self.term_mode -= 1
+            guards = self.guards.pop()
+        clean = ok and len(self.path.events) == ev0 and len(self.path.pc) == pc0 and not (env2.vars.keys() - {kname, vname})
+        del self.path.events[ev0:]
+        del self.path.pc[pc0:]
+        if clean:
+            for t in (ct, vt):
+                if lib._mentions(t, dom0) or lib._mentions(t, val0):
+                    clean = False
+        if clean:
+            for g, _cl in guards:
+                # no iteration may raise: each possible implicit exception must be excluded for every key of the row
+                hyp = list(self.path.pc) + [dom0[kvar], vvar == val0[kvar]]
+                if not smt_valid(hyp, g):
+                    clean = False
+                    break
+        if not clean:
+            self.counter = cnt0
+            return False
+        j = z3.Const('__mj', StrS)
+        sub = [(kvar, j), (vvar, val0[j])]
+        cj = z3.substitute(ct, *sub)
+        vj = z3.substitute(vt, *sub)
+        row.val = z3.Lambda([j], z3.If(z3.And(dom0[j], cj), vj, val0[j]))
+        self.emit(Ev('RowMapLoop', obj=row, seq=None, label=label))
         return True
 
     # ---------------------------------------------------------------- cut loops
@@ -1190,8 +1284,8 @@ class Interp:
             self.assume(n_done < seq_len if mode == 'iter' else n_done == seq_len)
         if mode == 'iter':
             elem = src.fresh_elem(self)
-            if isinstance(src, self.lib.EnumSource):
-                # enumerate(): the index of this element is start + number of elements before it
+            if isinstance(src, (self.lib.EnumSource, self.lib.ZipLongestSource)):
+                # enumerate() / zip_longest(): the index of this element is start + number of elements before it
                 self.assume(src.index == term(src.start, IntS) + n_done)
             self.emit(Ev('Pull', src=src.name, elem=elem, label=label))
             self.assign_target(node.target, elem, env)
@@ -1268,6 +1362,8 @@ class Interp:
             raise PathEnd('iter-end')
         else:
             self.assume(z3.Not(c) if not isinstance(c, bool) else (not c))
+            if spec.at_exit:
+                spec.at_exit(self, env)
             self.exec_block(node.orelse, env)
 
     # ---------------------------------------------------------------- expressions
@@ -1375,8 +1471,17 @@ class Interp:
         is_and = isinstance(node.op, ast.And)
         vals = node.values
         if self.term_mode:
-            ts = [self.truth(self.eval(v, env)) for v in vals]
-            ts = [z3.BoolVal(t) if isinstance(t, bool) else t for t in ts]
+            # no forking inside a term: all operands are evaluated, but an implicit exception of operand i can only happen
+            # when the operands before it did not short-circuit -- its guard is weakened accordingly
+            ts = []
+            for v in vals:
+                ng = len(self.guards[-1]) if self.guards else 0
+                t = self.truth(self.eval(v, env))
+                t = z3.BoolVal(t) if isinstance(t, bool) else t
+                if self.guards and ts and len(self.guards[-1]) > ng:
+                    pre = z3.And(*ts) if is_and else z3.Not(z3.Or(*ts))
+                    self.guards[-1][ng:] = [(z3.Implies(pre, g), cl) for g, cl in self.guards[-1][ng:]]
+                ts.append(t)
             return wrap(z3.And(*ts) if is_and else z3.Or(*ts))
         cur = None
         for i, v in enumerate(vals):
@@ -1460,7 +1565,21 @@ class Interp:
         raise Unsupported('bare FormattedValue')
 
     def eval_GeneratorExp(self, node, env):
-        return self.lib.GenExp(node, env, 'gen')
+        # Python evaluates the FIRST iterable of a generator expression immediately (in the enclosing scope) and binds it
+        # to the hidden argument `.0`; everything else is evaluated lazily.  (Matters when the name is rebound afterwards.)
+        first = self.eval(node.generators[0].iter, env)
+        g0 = node.generators[0]
+        cache = getattr(node, '_pyvc_eager', None)
+        if cache is None:
+            n2 = ast.GeneratorExp(elt=node.elt, generators=[ast.comprehension(
+                target=g0.target, iter=ast.Name(id='.0', ctx=ast.Load()), ifs=g0.ifs, is_async=0)] + list(node.generators[1:]))
+            ast.copy_location(n2, node)
+            ast.fix_missing_locations(n2)
+            node._pyvc_eager = n2
+            cache = n2
+        e2 = Env(env)
+        e2.vars['.0'] = first
+        return self.lib.GenExp(cache, e2, 'gen')
 
     def eval_ListComp(self, node, env):
         return self.lib.consume_comp(self, self.lib.GenExp(node, env, 'list'), 'list')
